@@ -167,5 +167,620 @@ theorem upward_value_core (kb : FKB ι α) (i : ι) (s : FState ι α) {s1 : FSt
   · rw [← hreads i g]
     exact bAt_of_mem_keys hrow _
 
+/-! ### the join branch: a tuple `σ` of the natural join -/
+
+/-- `SlotsCovered` pins the slots down: `numVars` distinct slots occur, all of `0 … numVars-1` occur,
+hence no other slot occurs. -/
+theorem slots_lt_of_covered {n : FNode ι α} (hc : SlotsCovered n) :
+    ∀ m ∈ n.opmap, ∀ c ∈ m, c < numVars n := by
+  intro m hm c hcm
+  have hmem : c ∈ dedup n.opmap.flatten :=
+    Join.mem_dedup.mpr (List.mem_flatten.mpr ⟨m, hm, hcm⟩)
+  have hsub : List.range (numVars n) ⊆ dedup n.opmap.flatten :=
+    fun x hx => Join.mem_dedup.mpr (hc.2 x (List.mem_range.mp hx))
+  have hsp : (List.range (numVars n)).Subperm (dedup n.opmap.flatten) :=
+    List.subperm_of_subset List.nodup_range hsub
+  have hperm := hsp.perm_of_length_le (by simp [numVars])
+  exact List.mem_range.mp (hperm.mem_iff.mpr hmem)
+
+/-- the operand readings of the tuple `σ`: operand `j` with variable map `m` is read at `m.map σ` -/
+def opReads (kb : FKB ι α) (i : ι) (s : FState ι α) (σ : Nat → Nat) : List (Bounds α) :=
+  List.zipWith (fun j m => Table.getD (kb j).world (s.get j) (m.map σ)) (kb i).ops (kb i).opmap
+
+/-- the operator grounding of the tuple `σ` -/
+def opGr (kb : FKB ι α) (i : ι) (σ : Nat → Nat) : Gr := (List.range (numVars (kb i))).map σ
+
+theorem hetF_opGr (kb : FKB ι α) (i : ι) (σ : Nat → Nat)
+    (hslots : ∀ m ∈ (kb i).opmap, ∀ c ∈ m, c < numVars (kb i)) :
+    Join.hetF (kb i) (opGr kb i σ) = (kb i).opmap.map fun m => m.map σ := by
+  unfold Join.hetF opGr
+  apply List.map_congr_left
+  intro m hm
+  apply List.map_congr_left
+  intro c hc
+  simp [List.getD_eq_getElem?_getD, hslots m hm c hc]
+
+theorem zipWith_hetF_opGr (kb : FKB ι α) (i : ι) (s : FState ι α) (σ : Nat → Nat)
+    (hslots : ∀ m ∈ (kb i).opmap, ∀ c ∈ m, c < numVars (kb i)) :
+    List.zipWith (fun j g' => Table.getD (kb j).world (s.get j) g') (kb i).ops
+      (Join.hetF (kb i) (opGr kb i σ)) = opReads kb i s σ := by
+  rw [hetF_opGr kb i σ hslots, List.zipWith_map_right]
+  rfl
+
+/-- **C09, value half, upward.** `σ` is a tuple of the natural join of the operand tables, neither
+of its first two operand readings is a contradiction. After `fUpConn` the operator's row at
+`(σ 0, …, σ (numVars-1))` reads exactly the truth function of the operand readings, intersected
+with (and clamped like) what the row read before — for an absent row: the world default. -/
+theorem upward_value (kb : FKB ι α) (i : ι) (s : FState ι α) (σ : Nat → Nat)
+    (hh : isHomogeneous (kb i) = false) (hc : SlotsCovered (kb i)) (hσ : InNatJoin kb i s σ)
+    (hnc : ((opReads kb i s σ).take 2).any (isContra (kb i).alpha) = false) :
+    Table.getD (kb i).world ((fUpConn kb i s).1.get i) (opGr kb i σ) =
+      (aggregate .both (Table.getD (kb i).world (s.get i) (opGr kb i σ))
+        (fActUp (kb i) (opReads kb i s σ))).1 := by
+  have hslots := slots_lt_of_covered hc
+  obtain ⟨J, hJ, hne, hrow, _, hcols⟩ := C09_join_exists kb i s σ hh hc hσ
+  have hG := Join.groundings_hetero kb i false s hh hJ hne
+  have hogs : opGr kb i σ ∈ Join.ogsOf (kb i) J := by
+    refine List.mem_map.mpr ⟨_, hrow, Join.project_map σ ?_⟩
+    intro c hcr
+    exact hcols c (List.mem_range.mp hcr)
+  have hkey : opGr kb i σ ∈ ((addAll kb (addAll kb s (List.zip (kb i).ops (Join.perOf (kb i) J)))
+      [(i, Join.ogsOf (kb i) J)]).get i).keys := by
+    rw [Join.mem_keys_addAll]
+    exact .inr ⟨_, List.mem_singleton.mpr rfl, rfl, hogs⟩
+  have h := upward_value_core kb i s hG (Join.hetF (kb i)) (Join.rowsOf_het (kb i) J hslots)
+    (opGr kb i σ) hogs hkey (by rw [zipWith_hetF_opGr kb i s σ hslots]; exact hnc)
+  rw [zipWith_hetF_opGr kb i s σ hslots] at h
+  exact h
+
+/-! ### the union branch -/
+
+/-- all operands share one variable tuple: every operand is read at the operator grounding itself -/
+def homReads (kb : FKB ι α) (i : ι) (s : FState ι α) (g : Gr) : List (Bounds α) :=
+  (kb i).ops.map fun j => Table.getD (kb j).world (s.get j) g
+
+theorem zipWith_homF (kb : FKB ι α) (i : ι) (s : FState ι α) (g : Gr) :
+    List.zipWith (fun j g' => Table.getD (kb j).world (s.get j) g') (kb i).ops
+      (Join.homF (kb i) g) = homReads kb i s g := by
+  unfold Join.homF homReads
+  rw [List.zipWith_map_right, List.zipWith_self]
+
+/-- **C09, value half, upward, union branch**: `g` is stored for some operand. -/
+theorem upward_value_homogeneous (kb : FKB ι α) (i : ι) (s : FState ι α)
+    (hh : isHomogeneous (kb i) = true) (j : ι) (hj : j ∈ (kb i).ops) (g : Gr)
+    (hg : g ∈ (s.get j).keys)
+    (hnc : ((homReads kb i s g).take 2).any (isContra (kb i).alpha) = false) :
+    Table.getD (kb i).world ((fUpConn kb i s).1.get i) g =
+      (aggregate .both (Table.getD (kb i).world (s.get i) g)
+        (fActUp (kb i) (homReads kb i s g))).1 := by
+  have hG := Join.groundings_homog kb i false s hh
+  have hgs : g ∈ Join.homGs kb i false s := by
+    unfold Join.homGs
+    rw [Join.mem_unionKeys]
+    exact ⟨(s.get j).keys, List.mem_append_left _ (List.mem_map.mpr ⟨j, hj, rfl⟩), hg⟩
+  have hkey : g ∈ ((addAll kb (addAll kb s ((kb i).ops.map fun j => (j, Join.homGs kb i false s)))
+      [(i, Join.homGs kb i false s)]).get i).keys := by
+    rw [Join.mem_keys_addAll]
+    exact .inr ⟨_, List.mem_singleton.mpr rfl, rfl, hgs⟩
+  have h := upward_value_core kb i s hG (Join.homF (kb i)) (fun k _ => Join.rowsOf_hom (kb i) _ k)
+    g hgs hkey (by rw [zipWith_homF]; exact hnc)
+  rw [zipWith_homF] at h
+  exact h
+
+/-! ### asserted facts under an OPEN world default -/
+
+/-- aggregating onto UNKNOWN `⟨0,1⟩` is just clamping the proposal … -/
+theorem aggregate_open (p : Bounds α) :
+    (aggregate .both ⟨0, 1⟩ p).1 = ⟨clamp01 p.lo, clamp01 p.hi⟩ := by
+  have h1 : clamp01 (max 0 p.lo) = clamp01 p.lo := by
+    unfold clamp01
+    rw [← max_assoc, max_self]
+  have h2 : clamp01 (min 1 p.hi) = clamp01 p.hi := by
+    unfold clamp01
+    rw [max_min_distrib_left, max_eq_right (zero_le_one' α), ← min_assoc, min_self]
+  simp [aggregate, h1, h2]
+
+/-- … which is the identity on bounds in `[0,1]` -/
+theorem aggregate_open_of_inUnit {p : Bounds α} (hp : InUnit p) :
+    (aggregate .both ⟨0, 1⟩ p).1 = p := by
+  rw [aggregate_open]
+  exact Bounds.ext' (clamp01_of_mem hp.1 hp.2.1) (clamp01_of_mem hp.2.2.1 hp.2.2.2)
+
+theorem impliesUp_inUnit (b : α) (ops : List (Opd α)) : InUnit (impliesUp b ops) := by
+  unfold impliesUp
+  split
+  · exact ⟨clamp01_nonneg _, clamp01_le_one _, clamp01_nonneg _, clamp01_le_one _⟩
+  · exact ⟨le_rfl, zero_le_one, zero_le_one, le_rfl⟩
+
+/-- the truth functions are clamped: whatever the operand readings, the activation of a connective
+is a pair of bounds in `[0,1]` -/
+theorem fActUp_inUnit (n : FNode ι α) (bs : List (Bounds α)) : InUnit (fActUp n bs) := by
+  have hc : ∀ x y : α, InUnit (⟨clamp01 x, clamp01 y⟩ : Bounds α) := fun x y =>
+    ⟨clamp01_nonneg _, clamp01_le_one _, clamp01_nonneg _, clamp01_le_one _⟩
+  have h01 : InUnit (⟨0, 1⟩ : Bounds α) := ⟨le_rfl, zero_le_one, zero_le_one, le_rfl⟩
+  unfold fActUp
+  split
+  · exact hc _ _
+  · exact hc _ _
+  · exact impliesUp_inUnit _ _
+  · exact h01
+
+/-- **C09 in the words of the property**: the operator has no row for the grounding yet and an OPEN
+world default; all operand facts of `σ` are stored. After upward inference the row reads exactly
+the truth function of the operand facts. -/
+theorem upward_value_open (kb : FKB ι α) (i : ι) (s : FState ι α) (σ : Nat → Nat)
+    (hh : isHomogeneous (kb i) = false) (hc : SlotsCovered (kb i)) (hσ : InNatJoin kb i s σ)
+    (hnc : ((opReads kb i s σ).take 2).any (isContra (kb i).alpha) = false)
+    (hw : (kb i).world = ⟨0, 1⟩) (hnew : opGr kb i σ ∉ (s.get i).keys) :
+    Table.getD (kb i).world ((fUpConn kb i s).1.get i) (opGr kb i σ) =
+      fActUp (kb i) (opReads kb i s σ) := by
+  rw [upward_value kb i s σ hh hc hσ hnc,
+    Table.getD_of_none (Table.find?_eq_none_iff.mpr hnew), hw]
+  exact aggregate_open_of_inUnit (fActUp_inUnit _ _)
+
+/-! ### the downward pass: the shape of `fDownConn` -/
+
+/-- the proposals of operator grounding `g` reading the operand groundings `opgs` -/
+def dItemOf (kb : FKB ι α) (i : ι) (s1 : FState ι α) (g : Gr) (opgs : List Gr) :
+    Option (List Gr × List (Bounds α)) :=
+  let bs := List.zipWith (fun j g => Table.getD (kb j).world (s1.get j) g) (kb i).ops opgs
+  let ob := Table.getD (kb i).world (s1.get i) g
+  if (bs.take 2).any (isContra (kb i).alpha) || isContra (kb i).alpha ob then none
+  else some (opgs, fActDown (kb i) ob bs)
+
+def dItems (kb : FKB ι α) (i : ι) (s1 : FState ι α) (ogs : List Gr) (per : List (List Gr)) :
+    List (List Gr × List (Bounds α)) :=
+  (List.range ogs.length).filterMap fun k => dItemOf kb i s1 (ogs.getD k []) (rowsOf per k)
+
+/-- the proposals that land on operand position `p` -/
+def dProps (items : List (List Gr × List (Bounds α))) (p : Nat) : List (Gr × Bounds α) :=
+  items.filterMap fun it =>
+    match it.1[p]?, it.2[p]? with
+    | some g, some b => some (g, b)
+    | _, _ => none
+
+/-- the write onto operand position `p.1`, formula `p.2` -/
+def dStep (idx : Option Nat) (items : List (List Gr × List (Bounds α))) (acc : FState ι α × α)
+    (p : Nat × ι) : FState ι α × α :=
+  if idx = none ∨ idx = some p.1 then
+    let w := writeMerged (acc.1.get p.2) (dProps items p.1)
+    (acc.1.set p.2 w.1, acc.2 + w.2)
+  else acc
+
+theorem fDownConn_eq (kb : FKB ι α) (i : ι) (idx : Option Nat) (s : FState ι α) :
+    fDownConn kb i idx s =
+      match groundings kb i true s with
+      | (s1, none) => (s1, 0)
+      | (s1, some (ogs, per)) =>
+        if (dItems kb i s1 ogs per).isEmpty then (s1, 0) else
+          (List.zip (List.range (kb i).ops.length) (kb i).ops).foldl
+            (dStep idx (dItems kb i s1 ogs per)) (s1, 0) := rfl
+
+theorem mem_dProps {items : List (List Gr × List (Bounds α))} {p : Nat} {q : Gr × Bounds α} :
+    q ∈ dProps items p ↔ ∃ it ∈ items, it.1[p]? = some q.1 ∧ it.2[p]? = some q.2 := by
+  unfold dProps
+  rw [List.mem_filterMap]
+  constructor
+  · rintro ⟨it, hit, h⟩
+    refine ⟨it, hit, ?_⟩
+    split at h
+    · next g b hg hb => cases h; exact ⟨hg, hb⟩
+    · cases h
+  · rintro ⟨it, hit, h1, h2⟩
+    exact ⟨it, hit, by simp only [h1, h2]⟩
+
+theorem dItemOf_fst {kb : FKB ι α} {i : ι} {s1 : FState ι α} {g : Gr} {o : List Gr}
+    {x : List Gr × List (Bounds α)} (h : dItemOf kb i s1 g o = some x) : x.1 = o := by
+  unfold dItemOf at h
+  simp only at h
+  split at h
+  · cases h
+  · simp only [Option.some.injEq] at h
+    rw [← h]
+
+theorem dItemOf_reads (kb : FKB ι α) (i : ι) {s1 s : FState ι α}
+    (h : ∀ j g, Table.getD (kb j).world (s1.get j) g = Table.getD (kb j).world (s.get j) g)
+    (g : Gr) (o : List Gr) : dItemOf kb i s1 g o = dItemOf kb i s g o := by
+  have e : (fun j g => Table.getD (kb j).world (s1.get j) g) =
+      fun j g => Table.getD (kb j).world (s.get j) g := by
+    funext j g
+    exact h j g
+  unfold dItemOf
+  rw [e, h i g]
+
+theorem dItemOf_of_noContra (kb : FKB ι α) (i : ι) (s : FState ι α) (g : Gr) (o : List Gr)
+    (hnc : ((List.zipWith (fun j g' => Table.getD (kb j).world (s.get j) g') (kb i).ops o).take 2).any
+      (isContra (kb i).alpha) = false)
+    (hno : isContra (kb i).alpha (Table.getD (kb i).world (s.get i) g) = false) :
+    dItemOf kb i s g o = some (o, fActDown (kb i) (Table.getD (kb i).world (s.get i) g)
+      (List.zipWith (fun j g' => Table.getD (kb j).world (s.get j) g') (kb i).ops o)) := by
+  unfold dItemOf
+  simp only [hnc, hno, Bool.or_self, Bool.false_eq_true, if_false]
+
+/-! ### the merged write, at one row -/
+
+theorem btight_foldl_mergeB : ∀ (cs : List (Bounds α)) (c x : Bounds α), x ∈ c :: cs →
+    FolAmount.BTight x (cs.foldl mergeB c)
+  | [], c, x, hx => by
+    rw [List.mem_singleton] at hx
+    subst hx
+    exact FolAmount.BTight.refl _
+  | d :: ds, c, x, hx => by
+    rw [List.foldl_cons]
+    rcases List.mem_cons.mp hx with e | e
+    · subst e
+      exact (show FolAmount.BTight x (mergeB x d) from ⟨le_max_left _ _, min_le_left _ _⟩).trans
+        (btight_foldl_mergeB ds _ _ (List.mem_cons_self ..))
+    · rcases List.mem_cons.mp e with e' | e'
+      · subst e'
+        exact (show FolAmount.BTight x (mergeB c x) from ⟨le_max_right _ _, min_le_right _ _⟩).trans
+          (btight_foldl_mergeB ds _ _ (List.mem_cons_self ..))
+      · exact btight_foldl_mergeB ds _ x (List.mem_cons_of_mem _ e')
+
+/-- aggregation is monotone in the previous bounds (no range hypothesis) -/
+theorem aggregate_mono_prev {a a' : Bounds α} (h : FolAmount.BTight a a') (p : Bounds α) :
+    FolAmount.BTight (aggregate .both a p).1 (aggregate .both a' p).1 := by
+  simp only [aggregate, reduceCtorEq, if_false]
+  exact ⟨clamp01_mono (max_le_max h.1 le_rfl), clamp01_mono (min_le_min h.2 le_rfl)⟩
+
+theorem wmStep_hits (t : Table α) (props : List (Gr × Bounds α)) (acc : Table α × α) (g : Gr)
+    (b : Bounds α) (r : Row α) (hr : Table.find? t g = some r) (hp : (g, b) ∈ props) :
+    ∃ m, FolAmount.BTight (aggregate .both r.b b).1 m ∧ InUnit m ∧
+      (FolAmount.wmStep t props acc g).1 = acc.1.setB g m := by
+  have hc : (aggregate .both r.b b).1 ∈
+      (props.filter (·.1 == g)).map fun p => (aggregate .both r.b p.2).1 :=
+    List.mem_map.mpr ⟨(g, b), List.mem_filter.mpr ⟨hp, by simp⟩, rfl⟩
+  unfold FolAmount.wmStep
+  split
+  · next h => rw [hr] at h; cases h
+  · next r' hr' =>
+    rw [hr] at hr'
+    cases hr'
+    split
+    · next hnil => rw [hnil] at hc; cases hc
+    · next c cs hcs =>
+      have hx : ∀ x ∈ c :: cs, ∃ p, x = (aggregate .both r.b p).1 := by
+        intro x hx
+        rw [← hcs, List.mem_map] at hx
+        obtain ⟨p, _, e⟩ := hx
+        exact ⟨p.2, e.symm⟩
+      rw [hcs] at hc
+      exact ⟨_, btight_foldl_mergeB cs c _ hc, (FolAmount.merged_ok r.b c cs hx).1, rfl⟩
+
+/-- THE MERGED WRITE AT ONE ROW: a proposal `b` addressed to the stored row `g` makes the row at
+least as tight as the aggregation of `b` onto the bounds the row held before the call -/
+theorem writeMerged_hits (t : Table α) (props : List (Gr × Bounds α)) (g : Gr) (b : Bounds α)
+    (r : Row α) (hr : Table.find? t g = some r) (hp : (g, b) ∈ props) :
+    ∃ r', Table.find? (writeMerged t props).1 g = some r' ∧
+      FolAmount.BTight (aggregate .both r.b b).1 r'.b ∧ InUnit r'.b := by
+  rw [FolAmount.writeMerged_eq]
+  have hnd := Join.nodup_dedupKeepFirst (props.map (·.1))
+  have hmem : g ∈ dedupKeepFirst (props.map (·.1)) :=
+    Join.mem_dedupKeepFirst.mpr (List.mem_map.mpr ⟨(g, b), hp, rfl⟩)
+  generalize dedupKeepFirst (props.map (·.1)) = ks at hnd hmem
+  obtain ⟨l1, l2, rfl⟩ := List.append_of_mem hmem
+  obtain ⟨hn1, hn2, hdis⟩ := List.nodup_append.mp hnd
+  rw [List.nodup_cons] at hn2
+  rw [List.foldl_append, List.foldl_cons]
+  have hg1 : g ∉ l1 := fun h => hdis g h g (List.mem_cons_self ..) rfl
+  obtain ⟨_, _, f1⟩ := FolAmount.foldl_wmStep_spec t props l1 hn1 (t, 0) (fun _ _ => rfl)
+  have e1 : Table.find? (l1.foldl (FolAmount.wmStep t props) (t, 0)).1 g = some r := by
+    rw [f1 g hg1]; exact hr
+  obtain ⟨m, hm, hstep⟩ := wmStep_hits t props (l1.foldl (FolAmount.wmStep t props) (t, 0)) g b r hr hp
+  have e2 : Table.find? (FolAmount.wmStep t props (l1.foldl (FolAmount.wmStep t props) (t, 0)) g).1 g
+      = some { r with b := m } := by
+    rw [hstep, Table.find?_setB_self, e1]; rfl
+  have hfind2 : ∀ g' ∈ l2,
+      Table.find? (FolAmount.wmStep t props (l1.foldl (FolAmount.wmStep t props) (t, 0)) g).1 g'
+        = Table.find? t g' := by
+    intro g' hg'
+    have hne : g' ≠ g := fun e => hn2.1 (e ▸ hg')
+    have hnot1 : g' ∉ l1 := fun h => hdis g' h g' (List.mem_cons_of_mem _ hg') rfl
+    rw [hstep, Table.find?_setB_of_ne _ _ hne, f1 g' hnot1]
+  obtain ⟨_, _, f2⟩ := FolAmount.foldl_wmStep_spec t props l2 hn2.2 _ hfind2
+  exact ⟨{ r with b := m }, by rw [f2 g hn2.1]; exact e2, hm⟩
+
+/-! ### the downward pass: every write only tightens, the write of operand `k` hits -/
+
+theorem dStep_tightens (idx : Option Nat) (items : List (List Gr × List (Bounds α)))
+    {s0 : FState ι α} (acc : FState ι α × α) (p : Nat × ι)
+    (h : FState.Tightens s0 acc.1 ∧ FState.InUnit acc.1) :
+    FState.Tightens s0 (dStep idx items acc p).1 ∧ FState.InUnit (dStep idx items acc p).1 := by
+  unfold dStep
+  split
+  · exact FState.tightens_set h _ _ (writeMerged_tightens _ _ (h.2 _))
+  · exact h
+
+theorem foldl_dStep_tightens (idx : Option Nat) (items : List (List Gr × List (Bounds α)))
+    {s0 : FState ι α} (l : List (Nat × ι)) (acc : FState ι α × α)
+    (h : FState.Tightens s0 acc.1 ∧ FState.InUnit acc.1) :
+    FState.Tightens s0 (l.foldl (dStep idx items) acc).1 ∧
+      FState.InUnit (l.foldl (dStep idx items) acc).1 :=
+  FolSound.foldl_inv (fun acc : FState ι α × α => FState.Tightens s0 acc.1 ∧ FState.InUnit acc.1)
+    _ _ _ h (fun acc hacc p _ => dStep_tightens idx items acc p hacc)
+
+theorem foldl_dStep_hits (idx : Option Nat) (items : List (List Gr × List (Bounds α)))
+    (s1 : FState ι α) (k : Nat) (j : ι) (g : Gr) (b : Bounds α) (r1 : Row α)
+    (hr1 : Table.find? (s1.get j) g = some r1) (hp : (g, b) ∈ dProps items k)
+    (hidx : idx = none ∨ idx = some k) :
+    ∀ (l : List (Nat × ι)) (acc : FState ι α × α), (k, j) ∈ l →
+      FState.Tightens s1 acc.1 ∧ FState.InUnit acc.1 →
+      ∃ r', Table.find? ((l.foldl (dStep idx items) acc).1.get j) g = some r' ∧
+        FolAmount.BTight (aggregate .both r1.b b).1 r'.b
+  | [], _, hmem, _ => by cases hmem
+  | x :: l, acc, hmem, hacc => by
+    rw [List.foldl_cons]
+    by_cases hx : x = (k, j)
+    · subst hx
+      obtain ⟨r, hr, hlo, hhi, _⟩ := hacc.1 j g r1 hr1
+      obtain ⟨r2, hr2, ht2⟩ := writeMerged_hits (acc.1.get j) (dProps items k) g b r hr hp
+      have hstep : (dStep idx items acc (k, j)).1 =
+          acc.1.set j (writeMerged (acc.1.get j) (dProps items k)).1 := by
+        unfold dStep
+        rw [if_pos hidx]
+      have hr2' : Table.find? ((dStep idx items acc (k, j)).1.get j) g = some r2 := by
+        rw [hstep, FState.get_set_self]; exact hr2
+      have hP2 := dStep_tightens idx items acc (k, j) hacc
+      obtain ⟨hT, _⟩ := foldl_dStep_tightens idx items (s0 := (dStep idx items acc (k, j)).1) l
+        (dStep idx items acc (k, j)) ⟨FState.Tightens.refl _, hP2.2⟩
+      obtain ⟨r', hr', hlo', hhi', _⟩ := hT j g r2 hr2'
+      refine ⟨r', hr', ?_⟩
+      exact ((aggregate_mono_prev (show FolAmount.BTight r1.b r.b from ⟨hlo, hhi⟩) b).trans ht2).trans
+        ⟨hlo', hhi'⟩
+    · have hmem' : (k, j) ∈ l := by
+        rcases List.mem_cons.mp hmem with e | e
+        · exact absurd e.symm hx
+        · exact e
+      exact foldl_dStep_hits idx items s1 k j g b r1 hr1 hp hidx l _ hmem'
+        (dStep_tightens idx items acc x hacc)
+
+/-- DOWNWARD VALUE, generic form. `k0` is an index of an operator grounding returned by grounding
+management; neither of its first two operand readings nor its own reading is a contradiction.
+Then operand `k`'s row at the `k`-th operand grounding of `k0` is, after `fDownConn`, at least as
+tight as the `k`-th downward proposal aggregated onto what the row read before. -/
+theorem downward_value_core (kb : FKB ι α) (i : ι) (idx : Option Nat) (s : FState ι α)
+    (hw : WorldsInUnit kb) (hs : FState.InUnit s) {s1 : FState ι α}
+    {ogs : List Gr} {per : List (List Gr)}
+    (hG : groundings kb i true s = (s1, some (ogs, per)))
+    (k0 : Nat) (hk0 : k0 < ogs.length)
+    (hnc : ((List.zipWith (fun j g' => Table.getD (kb j).world (s.get j) g') (kb i).ops
+      (rowsOf per k0)).take 2).any (isContra (kb i).alpha) = false)
+    (hno : isContra (kb i).alpha (Table.getD (kb i).world (s.get i) (ogs.getD k0 [])) = false)
+    (k : Nat) (j : ι) (g : Gr) (b : Bounds α)
+    (hj : (kb i).ops[k]? = some j) (hg : (rowsOf per k0)[k]? = some g)
+    (hgk : g ∈ (s1.get j).keys)
+    (hb : (fActDown (kb i) (Table.getD (kb i).world (s.get i) (ogs.getD k0 []))
+      (List.zipWith (fun j g' => Table.getD (kb j).world (s.get j) g') (kb i).ops
+        (rowsOf per k0)))[k]? = some b)
+    (hidx : idx = none ∨ idx = some k) :
+    FolAmount.BTight (aggregate .both (Table.getD (kb j).world (s.get j) g) b).1
+      (Table.getD (kb j).world ((fDownConn kb i idx s).1.get j) g) := by
+  have hreads : ∀ j g, Table.getD (kb j).world (s1.get j) g = Table.getD (kb j).world (s.get j) g := by
+    intro j g
+    have := FolSound.groundings_reads kb i true s j g
+    rw [hG] at this
+    exact this
+  have hP1 : FState.Tightens s1 s1 ∧ FState.InUnit s1 := by
+    have := groundings_tightens kb hw i true s hs
+    rw [hG] at this
+    exact ⟨FState.Tightens.refl _, this.2⟩
+  -- the item of `k0`
+  have hitem : dItemOf kb i s1 (ogs.getD k0 []) (rowsOf per k0) = some (rowsOf per k0,
+      fActDown (kb i) (Table.getD (kb i).world (s.get i) (ogs.getD k0 []))
+        (List.zipWith (fun j g' => Table.getD (kb j).world (s.get j) g') (kb i).ops
+          (rowsOf per k0))) := by
+    rw [dItemOf_reads kb i hreads]
+    exact dItemOf_of_noContra kb i s _ _ hnc hno
+  have hmem : _ ∈ dItems kb i s1 ogs per :=
+    List.mem_filterMap.mpr ⟨k0, List.mem_range.mpr hk0, hitem⟩
+  have hne : (dItems kb i s1 ogs per).isEmpty = false := by
+    cases h : dItems kb i s1 ogs per with
+    | nil => rw [h] at hmem; cases hmem
+    | cons _ _ => rfl
+  have hprop : (g, b) ∈ dProps (dItems kb i s1 ogs per) k :=
+    mem_dProps.mpr ⟨_, hmem, hg, hb⟩
+  obtain ⟨hlt, _⟩ := List.getElem?_eq_some_iff.mp hj
+  have hzip : (k, j) ∈ List.zip (List.range (kb i).ops.length) (kb i).ops :=
+    List.mem_iff_getElem?.mpr ⟨k, by
+      rw [List.getElem?_zip_eq_some]
+      exact ⟨by simp [hlt], hj⟩⟩
+  obtain ⟨r1, hr1⟩ := Table.exists_find?_of_mem_keys hgk
+  obtain ⟨r', hr', ht⟩ := foldl_dStep_hits idx (dItems kb i s1 ogs per) s1 k j g b r1 hr1 hprop hidx
+    _ (s1, 0) hzip hP1
+  rw [fDownConn_eq, hG]
+  simp only [hne, Bool.false_eq_true, if_false]
+  rw [Table.getD_of_some hr', ← hreads j g, Table.getD_of_some hr1]
+  exact ht
+
+/-- **C09, value half, downward.** `σ` is a tuple of the natural join of the operand tables; neither
+of its first two operand readings nor the operator's own reading at `σ`'s grounding is a
+contradiction. After `fDownConn kb i idx s` (`idx = none`, or `idx = some k`) operand `k`'s row at its
+projection `m.map σ` is at least as tight as the `k`-th downward proposal aggregated onto what the
+row read before. (Several operator groundings can project onto the same operand row; their
+proposals are merged by `(max L, min U)`, so "at least as tight as each" is what holds.) -/
+theorem downward_value (kb : FKB ι α) (i : ι) (idx : Option Nat) (s : FState ι α) (σ : Nat → Nat)
+    (hw : WorldsInUnit kb) (hs : FState.InUnit s)
+    (hh : isHomogeneous (kb i) = false) (hc : SlotsCovered (kb i)) (hσ : InNatJoin kb i s σ)
+    (hnc : ((opReads kb i s σ).take 2).any (isContra (kb i).alpha) = false)
+    (hno : isContra (kb i).alpha (Table.getD (kb i).world (s.get i) (opGr kb i σ)) = false)
+    (k : Nat) (j : ι) (m : List Nat) (b : Bounds α)
+    (hj : (kb i).ops[k]? = some j) (hm : (kb i).opmap[k]? = some m)
+    (hb : (fActDown (kb i) (Table.getD (kb i).world (s.get i) (opGr kb i σ))
+      (opReads kb i s σ))[k]? = some b)
+    (hidx : idx = none ∨ idx = some k) :
+    FolAmount.BTight (aggregate .both (Table.getD (kb j).world (s.get j) (m.map σ)) b).1
+      (Table.getD (kb j).world ((fDownConn kb i idx s).1.get j) (m.map σ)) := by
+  obtain ⟨ogs, per, k0, hG2, hk0, hog, hrows⟩ := C09_join_aligned kb i true s σ hh hc hσ
+  have hG : groundings kb i true s = ((groundings kb i true s).1, some (ogs, per)) :=
+    Prod.ext rfl hG2
+  have hz : List.zipWith (fun j g' => Table.getD (kb j).world (s.get j) g') (kb i).ops
+      (rowsOf per k0) = opReads kb i s σ := by
+    rw [hrows, List.zipWith_map_right]
+    rfl
+  have hog' : ogs.getD k0 [] = opGr kb i σ := hog
+  refine downward_value_core kb i idx s hw hs hG k0 hk0 (by rw [hz]; exact hnc)
+    (by rw [hog']; exact hno) k j (m.map σ) b hj ?_ ?_ (by rw [hz, hog']; exact hb) hidx
+  · rw [hrows, List.getElem?_map, hm]
+    rfl
+  · exact Join.groundings_keys_mono kb i true s j _ (hσ k j m hj hm)
+
+/-! ### frame: rows onto which no operator grounding projects -/
+
+theorem getD_writeMerged_of_not_mem (w : Bounds α) (t : Table α) (props : List (Gr × Bounds α))
+    (g : Gr) (h : ∀ q ∈ props, q.1 ≠ g) :
+    Table.getD w (writeMerged t props).1 g = Table.getD w t g := by
+  have hnot : g ∉ dedupKeepFirst (props.map (·.1)) := by
+    rw [Join.mem_dedupKeepFirst]
+    intro hm
+    obtain ⟨q, hq, e⟩ := List.mem_map.mp hm
+    exact h q hq e
+  have := (FolAmount.foldl_wmStep_spec t props _ (Join.nodup_dedupKeepFirst _) (t, 0)
+    (fun _ _ => rfl)).2.2 g hnot
+  rw [← FolAmount.writeMerged_eq] at this
+  unfold Table.getD
+  rw [this]
+
+/-- **frame**: a row `g` of the table of `j` onto which NO operator grounding projects (through any
+operand position that `j` occupies) reads after `fDownConn` what it read before. -/
+theorem downward_frame (kb : FKB ι α) (i : ι) (idx : Option Nat) (s : FState ι α) (j : ι) (g : Gr)
+    (hno : ∀ ogs per, (groundings kb i true s).2 = some (ogs, per) →
+      ∀ p : Nat, (kb i).ops[p]? = some j → ∀ k < ogs.length, (rowsOf per k)[p]? ≠ some g) :
+    Table.getD (kb j).world ((fDownConn kb i idx s).1.get j) g =
+      Table.getD (kb j).world (s.get j) g := by
+  have hreads := FolSound.groundings_reads kb i true s j g
+  rw [fDownConn_eq]
+  cases hG : groundings kb i true s with
+  | mk s1 o =>
+    rw [hG] at hreads hno
+    cases o with
+    | none => exact hreads
+    | some op =>
+      obtain ⟨ogs, per⟩ := op
+      simp only
+      split
+      · exact hreads
+      · apply FolSound.foldl_inv (fun acc : FState ι α × α =>
+          Table.getD (kb j).world (acc.1.get j) g = Table.getD (kb j).world (s.get j) g) _ _ _ hreads
+        intro acc hacc p hp
+        have hpj := FolSound.mem_zip_range _ _ p hp
+        unfold dStep
+        split
+        · simp only
+          by_cases e : p.2 = j
+          · rw [e, FState.get_set_self, getD_writeMerged_of_not_mem]
+            · exact hacc
+            · intro q hq hqg
+              obtain ⟨it, hit, h1, _⟩ := mem_dProps.mp hq
+              obtain ⟨k, hk, hitk⟩ := List.mem_filterMap.mp hit
+              rw [dItemOf_fst hitk, hqg] at h1
+              exact hno ogs per rfl p.1 (by rw [hpj, e]) k (List.mem_range.mp hk) h1
+          · rw [FState.get_set_of_ne _ _ (fun e' : j = p.2 => e e'.symm)]
+            exact hacc
+        · exact hacc
+
+/-! ### non-vacuity: `And(P(x,y), Q(y,z))` of `Props/C09.lean` over ℚ -/
+
+section NonVacuity
+
+theorem c09_opGr : opGr c09KB 2 c09σ = [1, 2, 5] := by decide
+
+theorem c09_worlds : WorldsInUnit c09KB := by
+  intro i
+  unfold c09KB
+  split <;> norm_num
+
+theorem inUnit_of_tabs (s : FState ι α) (h : ∀ p ∈ s.tabs, Table.InUnit p.2) : FState.InUnit s := by
+  intro i
+  unfold FState.get
+  cases hf : s.tabs.find? (fun p => decide (p.1 = i)) with
+  | none => intro r hr; cases hr
+  | some p => exact h p (List.mem_of_find?_eq_some hf)
+
+/-! upward: `P(1,2)`, `Q(2,5)` TRUE, the conjunction has no row -/
+
+theorem c09_opReads : opReads c09KB 2 c09S c09σ = [⟨1, 1⟩, ⟨1, 1⟩] := by
+  simp [opReads, c09KB, c09S, c09σ, FState.get, Table.getD, Table.find?]
+
+theorem c09_noContra :
+    ((opReads c09KB 2 c09S c09σ).take 2).any (isContra (c09KB 2).alpha) = false := by
+  rw [c09_opReads]
+  simp [isContra]
+
+theorem c09_new : opGr c09KB 2 c09σ ∉ (c09S.get 2).keys := by
+  simp [c09S, FState.get, Table.keys]
+
+theorem c09_fActUp : fActUp (c09KB 2) [⟨1, 1⟩, ⟨1, 1⟩] = ⟨1, 1⟩ := by
+  simp [fActUp, c09KB, andUp, termLo, termHi, clamp01]
+
+/-- theorem 1 instantiated: the hypotheses are satisfiable and the row reads the aggregate … -/
+example : Table.getD ⟨0, 1⟩ ((fUpConn c09KB 2 c09S).1.get 2) [1, 2, 5] =
+    (aggregate .both (Table.getD ⟨0, 1⟩ (c09S.get 2) [1, 2, 5])
+      (fActUp (c09KB 2) [⟨1, 1⟩, ⟨1, 1⟩])).1 := by
+  have h := upward_value c09KB 2 c09S c09σ c09KB_hetero c09KB_covered c09S_natJoin c09_noContra
+  rw [c09_opGr, c09_opReads] at h
+  exact h
+
+/-- … which for the absent row and the open world default is the truth function itself: the
+conjunction of two TRUE facts is TRUE at `(x,y,z) = (1,2,5)` -/
+example : Table.getD ⟨0, 1⟩ ((fUpConn c09KB 2 c09S).1.get 2) [1, 2, 5] = ⟨1, 1⟩ := by
+  have h := upward_value_open c09KB 2 c09S c09σ c09KB_hetero c09KB_covered c09S_natJoin
+    c09_noContra rfl c09_new
+  rw [c09_opGr, c09_opReads, c09_fActUp] at h
+  exact h
+
+/-! downward: the conjunction asserted TRUE at `(1,2,5)`, `Q(2,5)` TRUE, `P(1,2)` UNKNOWN -/
+
+def c09S' : FState Nat ℚ :=
+  ⟨[(0, [⟨[1, 2], ⟨0, 1⟩, ⟨0, 1⟩⟩]), (1, [⟨[2, 5], ⟨1, 1⟩, ⟨1, 1⟩⟩]),
+    (2, [⟨[1, 2, 5], ⟨1, 1⟩, ⟨1, 1⟩⟩])]⟩
+
+theorem c09S'_inUnit : FState.InUnit c09S' := by
+  apply inUnit_of_tabs
+  simp [c09S', Table.InUnit]
+
+theorem c09S'_natJoin : InNatJoin c09KB 2 c09S' c09σ := by
+  unfold InNatJoin
+  intro p j m hj hm
+  have ho : (c09KB 2).ops = [0, 1] := rfl
+  have hmm : (c09KB 2).opmap = [[0, 1], [1, 2]] := rfl
+  rw [ho] at hj
+  rw [hmm] at hm
+  match p with
+  | 0 =>
+    simp only [List.getElem?_cons_zero, Option.some.injEq] at hj hm
+    subst hj hm
+    decide
+  | 1 =>
+    simp only [List.getElem?_cons_succ, List.getElem?_cons_zero, Option.some.injEq] at hj hm
+    subst hj hm
+    decide
+  | (p + 2) => simp at hj
+
+theorem c09'_opReads : opReads c09KB 2 c09S' c09σ = [⟨0, 1⟩, ⟨1, 1⟩] := by
+  simp [opReads, c09KB, c09S', c09σ, FState.get, Table.getD, Table.find?]
+
+theorem c09'_self : Table.getD (c09KB 2).world (c09S'.get 2) (opGr c09KB 2 c09σ) = ⟨1, 1⟩ := by
+  rw [c09_opGr]
+  simp [c09S', FState.get, Table.getD, Table.find?]
+
+theorem c09'_fActDown : (fActDown (c09KB 2) ⟨1, 1⟩ [⟨0, 1⟩, ⟨1, 1⟩])[0]? = some ⟨1, 1⟩ := by
+  simp [fActDown, c09KB, andDown, termHi, sumW, clamp01]
+  norm_num
+
+/-- theorem 2 instantiated: after the downward pass (all operands, or operand 0 only) `P(1,2)` is
+at least as tight as TRUE — the lower bound has moved from 0 to 1 -/
+example (idx : Option Nat) (hidx : idx = none ∨ idx = some 0) :
+    FolAmount.BTight ⟨1, 1⟩ (Table.getD ⟨0, 1⟩ ((fDownConn c09KB 2 idx c09S').1.get 0) [1, 2]) := by
+  have h := downward_value c09KB 2 idx c09S' c09σ c09_worlds c09S'_inUnit c09KB_hetero c09KB_covered
+    c09S'_natJoin (by rw [c09'_opReads]; simp [isContra]) (by rw [c09'_self]; simp [isContra])
+    0 0 [0, 1] ⟨1, 1⟩ rfl rfl (by rw [c09'_self, c09'_opReads]; exact c09'_fActDown) hidx
+  have e : (aggregate BoundSel.both (Table.getD (c09KB 0).world (c09S'.get 0) ([0, 1].map c09σ))
+      (⟨1, 1⟩ : Bounds ℚ)).1 = ⟨1, 1⟩ := by
+    simp [c09S', c09σ, FState.get, Table.getD, Table.find?, aggregate, clamp01]
+  rw [e] at h
+  exact h
+
+end NonVacuity
+
 end FolValue
 end LNN
